@@ -7,7 +7,7 @@ import SqlObjVerif.Model.DrvUtil
   `op <inj> setattr c id col v` | `op <inj> set c id <kw> <extras>` | `op <inj> sync c id`
   `op <inj> create c <missing 0|1> <kw> <extras>` | `op <inj> createChild c <pkw> <ckw>`
   `op <inj> createChain <c:kw>… (leaf first)` | `op <inj> destroy c id`       inj = `-` | `<k>o` | `<k>i`; kw = `col=v,…|-`; v = `bad|bad2~<int>|N|<int>`;
-                                extras = `-` or `,`-joined `u` `o` `b` `f<col>=<v>`
+                                extras = `-` or `,`-joined `u` `o` `b` `f<col>=<v>` `p<cls>.<col>=<v>`
   Answer to `op`: `<ok|Err> # <statement log> # <changes> <syn|gap> # <dump>` (`syn`: `AtomicSyn` holds before the call). -/
 open SqlObjVerif SqlObjVerif.Fail SqlObjVerif.DrvUtil
 
@@ -60,6 +60,12 @@ def parseKw (t : String) : List (Nat × In) :=
 def parseExtras (t : String) : List Extra :=
   if t == "-" then [] else (t.splitOn ",").map fun it =>
     if it == "u" then .unknown else if it == "b" then .badProp
+    else if it.startsWith "p" then
+      match ((it.drop 1).toString).splitOn "=" with
+      | [lhs, v] => match lhs.splitOn "." with
+        | [pc, col] => .parentAttr (pc.toNat?.getD 0) (col.toNat?.getD 0) (parseIn v)
+        | _ => .okProp
+      | _ => .okProp
     else if it.startsWith "f" then
       match ((it.drop 1).toString).splitOn "=" with
       | [c, v] => .fk (c.toNat?.getD 0) (parseIn v).val
